@@ -170,9 +170,75 @@ Theorem C13_channel_written_edited_then_faulty_update : forall (u : list N -> bo
       exists meta_n, out = meta_n ++ frames_bytes (f_enc f).
 Proof. exact channel_written_edited_then_faulty_update. Qed.
 
+(* C13_written_then_faulty_update (no typing hypothesis) for FlacByteWriter and FlacChannelWriter runs *)
+Theorem C13_byte_written_then_faulty_update : forall (u : list N -> bool),
+  (forall s, Forall (fun b => b < 128) s -> u s = true) ->
+  forall o L md5, (forall l, length (md5 l) = 16%nat) -> (forall l, Forall (fun b => b < 256) (md5 l)) ->
+  forall p rate bps ch, rate < 2 ^ 20 -> 1 <= bps -> bps <= 32 -> 1 <= ch -> ch <= 8 ->
+  forall en wo total w (chunks : list (list N)),
+  options_wf wo -> Forall plain (o_metadata wo) -> seektables (o_metadata wo) = 0%nat ->
+  byte_new p en [] wo rate bps ch total = Ok w ->
+  Forall byte_ok (concat chunks) ->
+  let nb := bytes_per_sample_of bps in
+  let samples := decoded en (N.to_nat nb) (concat chunks) in
+  forallb (FlacCodec.Wf.fits bps) samples = true ->
+  let W := N.of_nat (length samples) / ch in
+  1 <= W -> N.of_nat (length samples) < 2 ^ 36 ->
+  match total with Some T => T = nb * (ch * W) | None => True end ->
+  exists f blocks,
+    byte_run (FlacE2E.E2E.encB o L rate bps) md5 p w chunks = Ok f /\
+    concat (map FlacCodec.Stream.interleave_frame blocks) =
+      firstn (N.to_nat ch * (length samples / N.to_nat ch)) samples /\
+    Forall byte (f_stream f) /\
+    forall (cap : nat) (ck : list N -> list (list N)) (edit : U.blocklist FlacMeta.Blocks.block -> res (U.blocklist FlacMeta.Blocks.block)) (rbf : bool)
+           (w1 w2 : IO.world) (b : bool) (w1' w2' : IO.world),
+      (0 < cap)%nat -> IO.ck_ok ck -> FlacUpdIo.IoFault_proofs.honest (IO.sr (IO.wsched w1)) ->
+      IO.wdev w1 = {| IO.data := f_stream f; IO.pos := 0 |} -> IO.wdev w2 = {| IO.data := []; IO.pos := 0 |} ->
+      typed_edit u edit -> U.keeps_streaminfo FlacMeta.Blocks.block edit ->
+      IO.update_file_io FlacMeta.Blocks.block psize_r ser_r uclass_r (read_blocks_b u) true cap ck edit rbf w1 w2 = (Ok b, w1', w2') ->
+      let out := if b then IO.data (IO.wdev w2') else IO.data (IO.wdev w1') in
+      FlacCodec.Stream.dec_stream out =
+        Some (FlacE2E.Bridge.conv_si (f_si f), map FlacCodec.Stream.interleave_frame blocks, FlacCodec.Stream.EndEof) /\
+      FlacCodec.Spec.spec_stream out = FlacCodec.Spec.spec_stream (f_stream f) /\
+      exists meta_n, out = meta_n ++ frames_bytes (f_enc f).
+Proof. exact byte_written_then_faulty_update. Qed.
+
+Theorem C13_channel_written_then_faulty_update : forall (u : list N -> bool),
+  (forall s, Forall (fun b => b < 128) s -> u s = true) ->
+  forall o L md5, (forall l, length (md5 l) = 16%nat) -> (forall l, Forall (fun b => b < 256) (md5 l)) ->
+  forall p rate bps ch, rate < 2 ^ 20 -> 1 <= bps -> bps <= 32 -> 1 <= ch -> ch <= 8 ->
+  forall wo total w (chunks : list (list (list Z))),
+  options_wf wo -> Forall plain (o_metadata wo) -> seektables (o_metadata wo) = 0%nat ->
+  channel_new p [] wo rate bps ch total = Ok w ->
+  Forall (chunk_ok (N.to_nat ch)) chunks ->
+  let samples := concat (multizip (cconcat (N.to_nat ch) chunks)) in
+  forallb (FlacCodec.Wf.fits bps) samples = true ->
+  let W := N.of_nat (length samples) / ch in
+  1 <= W -> N.of_nat (length samples) < 2 ^ 36 ->
+  match total with Some T => T = W | None => True end ->
+  exists f blocks,
+    channel_run (FlacE2E.E2E.encB o L rate bps) md5 p w chunks = Ok f /\
+    concat (map FlacCodec.Stream.interleave_frame blocks) =
+      firstn (N.to_nat ch * (length samples / N.to_nat ch)) samples /\
+    Forall byte (f_stream f) /\
+    forall (cap : nat) (ck : list N -> list (list N)) (edit : U.blocklist FlacMeta.Blocks.block -> res (U.blocklist FlacMeta.Blocks.block)) (rbf : bool)
+           (w1 w2 : IO.world) (b : bool) (w1' w2' : IO.world),
+      (0 < cap)%nat -> IO.ck_ok ck -> FlacUpdIo.IoFault_proofs.honest (IO.sr (IO.wsched w1)) ->
+      IO.wdev w1 = {| IO.data := f_stream f; IO.pos := 0 |} -> IO.wdev w2 = {| IO.data := []; IO.pos := 0 |} ->
+      typed_edit u edit -> U.keeps_streaminfo FlacMeta.Blocks.block edit ->
+      IO.update_file_io FlacMeta.Blocks.block psize_r ser_r uclass_r (read_blocks_b u) true cap ck edit rbf w1 w2 = (Ok b, w1', w2') ->
+      let out := if b then IO.data (IO.wdev w2') else IO.data (IO.wdev w1') in
+      FlacCodec.Stream.dec_stream out =
+        Some (FlacE2E.Bridge.conv_si (f_si f), map FlacCodec.Stream.interleave_frame blocks, FlacCodec.Stream.EndEof) /\
+      FlacCodec.Spec.spec_stream out = FlacCodec.Spec.spec_stream (f_stream f) /\
+      exists meta_n, out = meta_n ++ frames_bytes (f_enc f).
+Proof. exact channel_written_then_faulty_update. Qed.
+
 Print Assumptions C13_written_then_faulty_update.
 Print Assumptions C13_sample_written_file_is_bytes.
 Print Assumptions C13_byte_written_file_is_bytes.
 Print Assumptions C13_channel_written_file_is_bytes.
 Print Assumptions C13_byte_written_edited_then_faulty_update.
 Print Assumptions C13_channel_written_edited_then_faulty_update.
+Print Assumptions C13_byte_written_then_faulty_update.
+Print Assumptions C13_channel_written_then_faulty_update.
